@@ -76,6 +76,8 @@ func (r *randRec) windowOf(raw []byte, epoch int) int {
 var c14URLs = []string{
 	"ws://example.com/path?x=1", "ws://example.com", "ws://example.com/", "ws://example.com:8080/a/b", "ws://192.0.2.1/a%20b", "ws://[::1]/p?x=1&y=2", "ws://[::1]:8080/?q=1",
 	"ws://example.com/p#frag", "WS://example.com/x", "ws://example.com?q=1", "ws://EXAMPLE.com:80/x",
+	// paths whose escaped form is not what the default encoder would produce, and an empty query
+	"ws://example.com/a%2Fb/c", "ws://example.com/%41bc%2f", "ws://example.com/x?", "ws://example.com/a;b=c/d%3Be?k=%26&k=%3D",
 	"http://example.com/", "https://example.com/", "//example.com/", "example.com/ws", "ws://user@example.com/", "ws://user:pw@example.com/", "ftp://example.com/", "",
 }
 
